@@ -128,6 +128,10 @@ pub fn run_life() {
                     }
                     #[cfg(sneldb_verif)]
                     "now" => { snel_db::verif_hooks::set_now_secs(t[1].parse().unwrap()); json!({"ok": true}) }
+                    "uid" => {
+                        let reg = ctx.registry.read().await;
+                        match reg.get_uid(t[1]) { Some(u) => json!({"uid": u}), None => json!({"uid": null}) }
+                    }
                     "user" => { user = if t.get(1).copied() == Some("-") || t.len() < 2 { None } else { Some(t[1].to_string()) }; json!({"ok": true}) }
                     "auth" => { auth = t.get(1).copied() == Some("1"); json!({"ok": true}) }
                     "sleep" => { tokio::time::sleep(std::time::Duration::from_millis(t[1].parse().unwrap())).await; json!({"ok": true}) }
